@@ -323,14 +323,14 @@ def main():
 
     # ---- merge
     ev = {"evaluations": 0, "passes": 0, "nontrivial": 0, "total_steps": 0, "total_switches": 0, "cases_with_stale_read": 0}
-    inconcl, labels, strategies, per_cfg, known_hits = {}, {}, {}, {}, {}
+    inconcl, labels, strategies, per_cfg, known_hits, counters = {}, {}, {}, {}, {}, {}
     samples = []
     fps = set()
     time_limited = False
     for d in results:
         for k in ev:
             ev[k] += d.get(k, 0)
-        for name, m in (("inconclusive", inconcl), ("labels", labels), ("strategies", strategies), ("known_finding_hits", known_hits)):
+        for name, m in (("inconclusive", inconcl), ("labels", labels), ("strategies", strategies), ("known_finding_hits", known_hits), ("counters", counters)):
             for k, v in d.get(name, {}).items():
                 m[k] = m.get(k, 0) + v
         for k, v in d.get("per_cfg", {}).items():
@@ -397,6 +397,7 @@ def main():
             "nontrivial_cases": ev["nontrivial"],
             "inconclusive": inconcl,
             "labels": labels,
+            "inner_counters": counters,
             "strategies": strategies,
             "per_configuration_[cases,nontrivial]": per_cfg,
             "scheduling_points_executed": ev["total_steps"],
